@@ -217,3 +217,16 @@ impl TlsAcceptor {
         self.inner.into_stream(tls_config).await
     }
 }
+
+/// Doors for the verification harness (see `verif_hooks.rs`). Adapters only.
+#[cfg(feature = "verif")]
+impl TlsListener {
+    /// `Ok(Some(random))` = found, `Ok(None)` = not found, `Err(())` = need more data
+    pub(crate) fn verif_extract_client_random(data: &[u8]) -> Result<Option<Vec<u8>>, ()> {
+        match Self::extract_client_random(data) {
+            ClientRandomExtraction::Found(x) => Ok(Some(x)),
+            ClientRandomExtraction::NotFound => Ok(None),
+            ClientRandomExtraction::NeedMoreData => Err(()),
+        }
+    }
+}
